@@ -126,7 +126,14 @@ def _drain_dead_ends(eps):
 
 
 TEMPLATES = [_anbn, _pal, _nonempty_stack, _replace, _diamond, _replace_only, _counter_and_sink, _drain_dead_ends]
-TEMPLATES_MULTICHAR = TEMPLATES + [_ambiguous_stacks]
+def _ambiguous_stacks2(eps):
+    # the stacks [XY] (after a) and [X, Y] (after b) in the same state spell the same text; a continues only from the first, b only from the second: {aa, bb}
+    return {"Q": ["q0", "p", "q1", "g", "f"], "S": ["a", "b"], "G": ["X", "Y", "XY"],
+            "d": [["q0", "a", eps, "q1", "XY"], ["q0", "b", eps, "p", "X"], ["p", eps, eps, "q1", "Y"], ["q1", "a", "XY", "f", eps], ["q1", "b", "Y", "g", eps], ["g", eps, "X", "f", eps]],
+            "q0": "q0", "F": ["f"], "eps": eps}
+
+
+TEMPLATES_MULTICHAR = TEMPLATES + [_ambiguous_stacks, _ambiguous_stacks2]
 
 
 @st.composite
